@@ -266,9 +266,53 @@ func fieldStore(in ssa.Instruction, field string) (*ssa.Store, bool) {
 	return st, true
 }
 
+// addrField: the struct field an address denotes, looking through a pointer parameter that the
+// caller bound to &x.f (a method with pointer receiver on a wrapper type of the field).
+func (p *Prog) addrField(fr *Frame, addr ssa.Value) (string, bool) {
+	if fr != nil {
+		if rv, _ := fr.Resolve(addr); rv != nil {
+			addr = rv
+		}
+	}
+	fa, ok := stripChangeType(addr).(*ssa.FieldAddr)
+	if !ok {
+		return "", false
+	}
+	return fieldName(fa.X.Type(), fa.Field), true
+}
+
+// isFieldLoadFr: v is a load of the named field, directly or through such a pointer parameter.
+func (p *Prog) isFieldLoadFr(fr *Frame, v ssa.Value, field string) bool {
+	v = stripChangeType(v)
+	if ld, ok := v.(*ssa.UnOp); ok && ld.Op == token.MUL {
+		if f, ok := p.addrField(fr, ld.X); ok && f == field {
+			return true
+		}
+	}
+	if fr != nil {
+		if rv, _ := fr.Resolve(v); rv != nil && rv != v {
+			return p.isFieldLoad(rv, field)
+		}
+	}
+	return p.isFieldLoad(v, field)
+}
+
+func (p *Prog) fieldStoreFr(fr *Frame, in ssa.Instruction, field string) (*ssa.Store, bool) {
+	st, ok := in.(*ssa.Store)
+	if !ok {
+		return nil, false
+	}
+	if f, ok := p.addrField(fr, st.Addr); ok && f == field {
+		return st, true
+	}
+	return nil, false
+}
+
 // ingestOf: `B = append(B, x...)`; returns the appended source value.
-func (p *Prog) ingestOf(in ssa.Instruction) (src ssa.Value, ok bool) {
-	st, ok := fieldStore(in, "join")
+func (p *Prog) ingestOf(in ssa.Instruction) (src ssa.Value, ok bool) { return p.ingestOfFr(nil, in) }
+
+func (p *Prog) ingestOfFr(fr *Frame, in ssa.Instruction) (src ssa.Value, ok bool) {
+	st, ok := p.fieldStoreFr(fr, in, "join")
 	if !ok {
 		return nil, false
 	}
@@ -279,21 +323,23 @@ func (p *Prog) ingestOf(in ssa.Instruction) (src ssa.Value, ok bool) {
 	if b, ok := call.Call.Value.(*ssa.Builtin); !ok || b.Name() != "append" {
 		return nil, false
 	}
-	if !p.isFieldLoad(call.Call.Args[0], "join") {
+	if !p.isFieldLoadFr(fr, call.Call.Args[0], "join") {
 		return nil, false
 	}
 	return call.Call.Args[1], true
 }
 
 // isReset: `B = B[:0]`, `B = nil`, or `B = make([]T, 0, n)` (an empty buffer by any spelling)
-func (p *Prog) isReset(in ssa.Instruction) bool {
-	st, ok := fieldStore(in, "join")
+func (p *Prog) isReset(in ssa.Instruction) bool { return p.isResetFr(nil, in) }
+
+func (p *Prog) isResetFr(fr *Frame, in ssa.Instruction) bool {
+	st, ok := p.fieldStoreFr(fr, in, "join")
 	if !ok {
 		return false
 	}
-	switch v := st.Val.(type) {
+	switch v := stripChangeType(st.Val).(type) {
 	case *ssa.Slice:
-		if !p.isFieldLoad(v.X, "join") || v.Low != nil {
+		if !p.isFieldLoadFr(fr, v.X, "join") || v.Low != nil {
 			return false
 		}
 		k, ok := constDuration(v.High)
@@ -387,7 +433,7 @@ func (p *Prog) payloadOrigin(fr *Frame, v ssa.Value) payload {
 				walk(fr, e, cloned, depth+1)
 			}
 		case *ssa.UnOp:
-			if x.Op == token.MUL && p.isFieldLoad(x, "join") {
+			if x.Op == token.MUL && p.isFieldLoadFr(fr, x, "join") {
 				pl.origin, pl.root = "B", x
 				pl.cloned = append(pl.cloned, cloned)
 				return
